@@ -9,15 +9,23 @@
   * `d2_fog_spec`: block `i` = `Jgᵀ·Hf_i·Jg + Σ_j Jf[i,j]·Hg_j`, all sizes;
   * `dQ_is_derivative_of_Q`: all 54 entries of the hand-expanded table of `calculate_Q_dQ`
     (GENERATED from se3.hpp on every run) are the partial derivatives of `V/2 + A·PA + B·PB + C·PC`;
+  * `se3_calculate_Q_dQ_hasDerivAt`: the full `dQ` (table + `dA,dB,dC` loop) is the derivative of `Q`
+    (closed branch, 54 entries); `se3_d2rExp_hasDerivAt`, `se3_d2rExpinv_hasDerivAt`: all 216 entries of SE3
+    `d2r_exp` / `d2r_expinv`;
   * `so3_d2rExp_hasDerivAt`, `so3_d2rExpinv_hasDerivAt`, `se2_d2rExp_hasDerivAt`,
     `se2_d2rExpinv_hasDerivAt`: all 27 entries each, closed-form branch;
   * series-branch coefficients are consistent (`dA`, `dB` are the derivatives of the series `A`, `B`);
-  * `d2l_def`.
+  * `d2l_def`, `d2r_rminus_def`, `d2r_rminus_squarednorm_def`.
 -/
 import SmoothProofs.C05Alg
 import SmoothProofs.C05Leibniz
 import SmoothProofs.C05dQ
 import SmoothProofs.C05SO3
+import SmoothProofs.C05SE2
+import SmoothProofs.C05Series
+import SmoothProofs.C05SE3
+import SmoothProofs.C05SE3H
+import SmoothProofs.C05SE3Hinv
 
 open Lin Scalar
 
@@ -90,6 +98,46 @@ theorem calculate_Q_eq_Qpoly (a : Vec ℝ 6) :
           (-(Trig.sin_5 (sqNorm (SE3.tw a)))) (SE3.tv a) (SE3.tw a) :=
   C05dQ.calculate_Q_eq_Qpoly a
 
+/-- `calculate_Q_dQ(a)` returns `(Q, dQ)` with `dQ` the derivative of `Q` — generated table plus the
+    `dA_over_th, dB_over_th, dC_over_th` loop — for all 54 entries, in the closed branch
+    (`eps2 < |w|²`): `dQ[r, 6·j + k] = ∂Q[j,r]/∂a_k`. -/
+theorem se3_calculate_Q_dQ_hasDerivAt (a : Vec ℝ 6) (h : Scalar.eps2 < sqNorm (SE3.tw a))
+    (j r : Fin 3) (k : Fin 6) :
+    HasDerivAt (fun t => (SE3.calculate_Q_dQ (shift a k t)).1 j r)
+      ((SE3.calculate_Q_dQ a).2 r ⟨6 * j.val + k.val, by have := j.isLt; have := k.isLt; omega⟩) 0 :=
+  C05SE3.Q_dQ_hasDerivAt a h j r k
+
+/-- non-vacuity: `a = (5, −7, 11; 1, 0, 0)` -/
+example : Scalar.eps2 < sqNorm (SE3.tw (SE3.mk6 (mk3 (5:ℝ) (-7) 11) (mk3 1 0 0))) := by
+  have : SE3.tw (SE3.mk6 (mk3 (5:ℝ) (-7) 11) (mk3 1 0 0)) = mk3 1 0 0 := by
+    ext i; fin_cases i <;> rfl
+  have h : sqNorm (mk3 (1:ℝ) 0 0) = 1 := by simp [C04Alg.sqNorm3, mk3]
+  rw [this, h, C04SO3.eps2_real]; norm_num
+
+/-- SE3 `d2r_exp` is the derivative of `dr_exp`, closed branch (`eps2 < |w|²`), all 216 entries:
+    `H[R, 6·J + k] = ∂Jac[J,R]/∂a_k` (SO3 Hessian blocks, the `−dQ(−a)` block, zero blocks). -/
+theorem se3_d2rExp_hasDerivAt (a : Vec ℝ 6) (h : Scalar.eps2 < sqNorm (SE3.tw a)) (J R k : Fin 6) :
+    HasDerivAt (fun t => (SE3.dr_exp (shift a k t)) J R)
+      ((SE3.d2r_exp a) R ⟨6 * J.val + k.val, by have := J.isLt; have := k.isLt; omega⟩) 0 :=
+  C05SE3H.d2rExp_hasDerivAt a h J R k
+
+/-- SE3 `d2r_expinv` is the derivative of `dr_expinv`, closed branch (`eps2 < |w|²`, `sin θ ≠ 0`), all
+    216 entries; the `−J⁻¹QJ⁻¹` block goes through the code's two `d_matrix_product` calls. -/
+theorem se3_d2rExpinv_hasDerivAt (a : Vec ℝ 6) (h : Scalar.eps2 < sqNorm (SE3.tw a))
+    (hs : Real.sin (Real.sqrt (sqNorm (SE3.tw a))) ≠ 0) (J R k : Fin 6) :
+    HasDerivAt (fun t => (SE3.dr_expinv (shift a k t)) J R)
+      ((SE3.d2r_expinv a) R ⟨6 * J.val + k.val, by have := J.isLt; have := k.isLt; omega⟩) 0 :=
+  C05SE3Hinv.d2rExpinv_hasDerivAt a h hs J R k
+
+/-- non-vacuity: `a = (5, −7, 11; 1, 0, 0)`: `θ = 1` -/
+example : Scalar.eps2 < sqNorm (SE3.tw (SE3.mk6 (mk3 (5:ℝ) (-7) 11) (mk3 1 0 0))) ∧
+    Real.sin (Real.sqrt (sqNorm (SE3.tw (SE3.mk6 (mk3 (5:ℝ) (-7) 11) (mk3 1 0 0))))) ≠ 0 := by
+  have : SE3.tw (SE3.mk6 (mk3 (5:ℝ) (-7) 11) (mk3 1 0 0)) = mk3 1 0 0 := by
+    ext i; fin_cases i <;> rfl
+  have h : sqNorm (mk3 (1:ℝ) 0 0) = 1 := by simp [C04Alg.sqNorm3, mk3]
+  rw [this, h, C04SO3.eps2_real, Real.sqrt_one]
+  exact ⟨by norm_num, (Real.sin_pos_of_pos_of_lt_pi one_pos (by linarith [Real.two_le_pi])).ne'⟩
+
 /-! ### SO3 -/
 
 /-- SO3 `d2r_exp` is the derivative of `dr_exp`, closed-form branch (`eps2 < θ²`), all 27 entries:
@@ -103,6 +151,114 @@ theorem so3_d2rExp_hasDerivAt (a : Vec ℝ 3) (h : Scalar.eps2 < sqNorm a) (j r 
 example : Scalar.eps2 < sqNorm (mk3 (1:ℝ) 0 0) := by
   have h : sqNorm (mk3 (1:ℝ) 0 0) = 1 := by simp [C04Alg.sqNorm3, mk3]
   rw [h, C04SO3.eps2_real]; norm_num
+
+/-- SO3 `d2r_expinv` is the derivative of `dr_expinv`, closed-form branch (`eps2 < θ²`, `sin θ ≠ 0`),
+    all 27 entries. -/
+theorem so3_d2rExpinv_hasDerivAt (a : Vec ℝ 3) (h : Scalar.eps2 < sqNorm a)
+    (hs : Real.sin (Real.sqrt (sqNorm a)) ≠ 0) (j r k : Fin 3) :
+    HasDerivAt (fun t => (SO3.dr_expinv (shift a k t)) j r)
+      ((SO3.d2r_expinv a) r ⟨3 * j.val + k.val, by have := j.isLt; have := k.isLt; omega⟩) 0 :=
+  C05SO3.d2rExpinv_hasDerivAt a h hs j r k
+
+/-- non-vacuity: `a = (1, 0, 0)`: `θ = 1`, `sin 1 ≠ 0` -/
+example : Scalar.eps2 < sqNorm (mk3 (1:ℝ) 0 0) ∧ Real.sin (Real.sqrt (sqNorm (mk3 (1:ℝ) 0 0))) ≠ 0 := by
+  have h : sqNorm (mk3 (1:ℝ) 0 0) = 1 := by simp [C04Alg.sqNorm3, mk3]
+  rw [h, C04SO3.eps2_real, Real.sqrt_one]
+  exact ⟨by norm_num,
+    (Real.sin_pos_of_pos_of_lt_pi one_pos (by linarith [Real.two_le_pi])).ne'⟩
+
+/-! ### SE2 -/
+
+/-- SE2 `d2r_exp` is the derivative of `dr_exp`, closed-form branch (`eps2 < θ²`, `θ = a_2`),
+    all 27 entries. -/
+theorem se2_d2rExp_hasDerivAt (a : Vec ℝ 3) (h : Scalar.eps2 < a 2 * a 2) (j r k : Fin 3) :
+    HasDerivAt (fun t => (SE2.dr_exp (shift a k t)) j r)
+      ((SE2.d2r_exp a) r ⟨3 * j.val + k.val, by have := j.isLt; have := k.isLt; omega⟩) 0 :=
+  C05SE2.d2rExp_hasDerivAt a h j r k
+
+/-- SE2 `d2r_expinv` is the derivative of `dr_expinv`, closed-form branch, all 27 entries. -/
+theorem se2_d2rExpinv_hasDerivAt (a : Vec ℝ 3) (h : Scalar.eps2 < a 2 * a 2)
+    (hs : Real.sin (a 2) ≠ 0) (j r k : Fin 3) :
+    HasDerivAt (fun t => (SE2.dr_expinv (shift a k t)) j r)
+      ((SE2.d2r_expinv a) r ⟨3 * j.val + k.val, by have := j.isLt; have := k.isLt; omega⟩) 0 :=
+  C05SE2.d2rExpinv_hasDerivAt a h hs j r k
+
+/-- non-vacuity: `a = (2, 3, 1)` -/
+example : Scalar.eps2 < (mk3 (2:ℝ) 3 1) 2 * (mk3 (2:ℝ) 3 1) 2 ∧ Real.sin ((mk3 (2:ℝ) 3 1) 2) ≠ 0 := by
+  refine ⟨?_, ?_⟩
+  · show Scalar.eps2 < (1:ℝ) * 1
+    rw [C04SO3.eps2_real]; norm_num
+  · show Real.sin 1 ≠ 0
+    exact (Real.sin_pos_of_pos_of_lt_pi one_pos (by linarith [Real.two_le_pi])).ne'
+
+/-! ### small-angle (series) branches: the returned coefficient derivatives are the derivatives of
+    the returned coefficients -/
+
+/-- SE2 `d2r_exp`, `wz² < eps2`: `dA_dwz = d/dwz (1/2 − wz²/24)`, `dB_dwz = d/dwz (1/6 − wz²/120)`.
+    (False for the pre-fix coefficient `−wz/48`.) -/
+theorem se2_d2rExp_series_consistent {wz : ℝ} (h : wz * wz < Scalar.eps2) :
+    HasDerivAt (fun w => (SE2.d2rExpCoef w).1) (SE2.d2rExpCoef wz).2.2.1 wz ∧
+    HasDerivAt (fun w => (SE2.d2rExpCoef w).2.1) (SE2.d2rExpCoef wz).2.2.2 wz :=
+  C05Series.se2_d2rExp_series_consistent h
+
+/-- SO3 `d2r_exp`, `θ² < eps2`: `θ·dA_over_th = dA/dθ`, `θ·dB_over_th = dB/dθ`.
+    (False for the pre-fix coefficient `−1/48`.) -/
+theorem so3_d2rExp_series_consistent {θ : ℝ} (h : θ * θ < Scalar.eps2) :
+    HasDerivAt (fun w => (SO3.d2rExpCoef (w * w)).1) (θ * (SO3.d2rExpCoef (θ * θ)).2.2.1) θ ∧
+    HasDerivAt (fun w => (SO3.d2rExpCoef (w * w)).2.1) (θ * (SO3.d2rExpCoef (θ * θ)).2.2.2) θ :=
+  C05Series.so3_d2rExp_series_consistent h
+
+/-- SO3 `d2r_expinv`, `θ² < eps2`: `θ·dA_over_th = dA/dθ`. -/
+theorem so3_d2rExpinv_series_consistent {θ : ℝ} (h : θ * θ < Scalar.eps2) :
+    HasDerivAt (fun w => (SO3.d2rExpinvCoef (w * w)).1) (θ * (SO3.d2rExpinvCoef (θ * θ)).2) θ :=
+  C05Series.so3_d2rExpinv_series_consistent h
+
+/-- non-vacuity of the series-branch hypotheses: `wz = 1/100000` -/
+example : (1 / 100000 : ℝ) * (1 / 100000) < Scalar.eps2 := by
+  rw [C04SO3.eps2_real]; norm_num
+
+/-- NEGATION (observation on se2.hpp:252-256,282): in the series branch of SE2 `d2r_expinv` the
+    returned `dA_dwz = 1/360` is not the derivative of the returned `A = 1/12 + wz²/720` (which is
+    `wz/360`), for every `wz` of the branch.  The induced Hessian error is
+    `(1/360 − wz/360)·ad²[j,r]`, about `3e-6` relative — inside the property's tolerance. -/
+theorem se2_d2rExpinv_small_angle_coefficient_wrong {wz : ℝ} (h : wz * wz < Scalar.eps2) :
+    ¬ HasDerivAt (fun w => (SE2.d2rExpinvCoef w).1) (SE2.d2rExpinvCoef wz).2 wz :=
+  C05Series.se2_d2rExpinv_small_angle_coefficient_wrong h
+
+theorem se2_d2rExpinv_series_inconsistent {wz : ℝ} (h : wz * wz < Scalar.eps2) :
+    HasDerivAt (fun w => (SE2.d2rExpinvCoef w).1) (wz / 360) wz ∧
+    (SE2.d2rExpinvCoef wz).2 = 1 / 360 ∧ wz / 360 ≠ 1 / 360 :=
+  C05Series.se2_d2rExpinv_series_inconsistent h
+
+/-- size of the effect of that constant on the Hessian: the code adds `(1/360)·ad²[j,r]` where the
+    derivative of its own `A` requires `(wz/360)·ad²[j,r]`; the difference is at most `|ad²[j,r]|/359`
+    with `ad² = [[−θ², 0, θx],[0, −θ², θy],[0,0,0]]`, i.e. `O(θ·|a|)` (≤ 2.8e-7·|a| in the branch). -/
+theorem se2_d2rExpinv_series_error (a : Vec ℝ 3) (h : a 2 * a 2 < Scalar.eps2) (j r : Fin 3) :
+    |(SE2.d2rExpinvCoef (a 2)).2 * (mmul (SE2.ad a) (SE2.ad a)) j r
+        - (a 2 / 360) * (mmul (SE2.ad a) (SE2.ad a)) j r|
+      ≤ |(mmul (SE2.ad a) (SE2.ad a)) j r| / 359 :=
+  C05SE2.d2rExpinv_series_error a h j r
+
+theorem se2_ad_sq (a : Vec ℝ 3) :
+    mmul (SE2.ad a) (SE2.ad a)
+      = mat3 (-(a 2 * a 2)) 0 (a 2 * a 0) 0 (-(a 2 * a 2)) (a 2 * a 1) 0 0 0 :=
+  C05SE2.ad_sq a
+
+/-! ### `d2r_rminus`, `d2r_rminus_squarednorm` -/
+
+/-- `d2r_rminus(e)[r, n·j + k] = Σ_l d2r_expinv(e)[r, n·j + l] · dr_expinv(e)[l, k]` -/
+theorem d2r_rminus_def (G : LieModel ℝ) (e : Vec ℝ G.dof) (r j k : Fin G.dof) :
+    (Derivs.d2r_rminus G e) r (col j k)
+      = ∑ l, (G.d2r_expinv e) r (col j l) * (G.dr_expinv e) l k :=
+  C05Alg.d2r_rminus_entry G e r j k
+
+/-- `d2r_rminus_squarednorm(e) = JᵀJ + Σ_j e_j·H_j`, `J = dr_expinv(e)`, `H_j` = block `j` of
+    `d2r_rminus(e)` — the chain rule `d2_fog` for `½|·|² ∘ rminus`. -/
+theorem d2r_rminus_squarednorm_def (G : LieModel ℝ) (e : Vec ℝ G.dof) (r c : Fin G.dof) :
+    (Derivs.d2r_rminus_squarednorm G e) r c
+      = (∑ q, (G.dr_expinv e) q r * (G.dr_expinv e) q c)
+        + ∑ j, e j * (Derivs.d2r_rminus G e) r (col j c) :=
+  C05Alg.d2r_rminus_squarednorm_entry G e r c
 
 /-! ### left Hessians -/
 
